@@ -72,6 +72,9 @@ var props = []*propSpec{
 }
 
 func init() {
+	props = append(props, &propSpec{ID: "C12", Level: "fault_enumeration", Clauses: []string{"C12.", "C14.panic"},
+		Scens:  []scenSpec{{Name: "backend", Weight: 1}},
+		QuickS: 45, ThorS: 900, Rule: ruleCommon})
 	props = append(props, &propSpec{ID: "C09", Level: "exploration", Clauses: []string{"C09.", "C03.", "C04."},
 		Scens:  []scenSpec{{Name: "restartdir", Weight: 1, Batch: 20}},
 		QuickS: 40, ThorS: 600,
